@@ -23,7 +23,8 @@ META = {
                  'every token is consumed on every path (PAR-1), the file-level stack entry can never be removed (PAR-9), '
                  'nodes only from accepting states (PAR-3), no local is read unbound on a feasible path in tokenizer / '
                  'parser / tree modules (DA, path-sensitive), the scan loop cannot loop without assigning the position and '
-                 'the fallback advances by a positive constant (TOK-6), no early exit before the epilogue (TOK-5), the 9 '
+                 'the fallback advances by a positive constant (TOK-6), the f-string closer ranges over every stack entry the '
+                 'line cut ranges over (TOK-9), no early exit before the epilogue (TOK-5), the 9 '
                  'grammars cannot make the generator raise (GR-1..3). Does not decide absence of every implicit exception.',
         'note': _TB + 'Five reasoned DA suppressions (named symbol + reason) in rules/dar.py.',
         'technique': 'path-sensitive definite-assignment + CFG path rules + LL(1) grammar analysis',
@@ -42,7 +43,8 @@ META = {
         'level': 'Decides the two clauses that are literally in the statement and visible in code shape: every memo slot of a '
                  'tree class (lazily filled under an is-None test; found by analysis, today Module._used_names) is reset by '
                  'DiffParser.update before anything else happens, update returns the module only after _nodes_tree.close() '
-                 '(TREE-6, dominators), and every children-list write in diff.py sets the parents of what it places (TREE-1). '
+                 '(TREE-6, dominators), and every children-list write in diff.py sets the parents of what it places (TREE-1); '
+                 'the position code the diff parser\'s line arithmetic is derived from recognises \\n and \\r alike (RX-10). '
                  'The equivalence with a fresh parse over edit histories is value/heuristic driven and not decided.',
         'note': _TB,
         'technique': 'dominator analysis on the CFG of DiffParser.update + parent/children pairing rule',
@@ -62,8 +64,9 @@ META = {
                  'no sentence: each of the 9 grammar files is checked by an independent EBNF reader for left recursion, '
                  'nullable rules, FIRST/FIRST conflicts in every DFA state and FIRST/FOLLOW conflicts at every accepting '
                  'state with out-arcs (which parso\'s own generator does not test); every quoted terminal is one NAME/OP token '
-                 'of that version\'s tokenizer under ordered-choice regex semantics (GR-5). Does not decide that the returned '
-                 'tree equals the derivation.',
+                 'of that version\'s tokenizer under ordered-choice regex semantics (GR-5); every read of the reserved-word '
+                 'table is keyed by the token\'s own unmodified text at the read site and at every call site (PAR-11). Does '
+                 'not decide that the returned tree equals the derivation.',
         'note': _TB + 'Assumes generator.py builds the tables the text describes (structural part: C08).',
         'technique': 'LL(1) FIRST/FOLLOW conflict analysis of the grammar files + ordered-choice regex matching of terminals',
     },
@@ -79,10 +82,15 @@ META = {
         'level': 'Decides the rejection paths of the generator: a table store is reachable only through a failed membership '
                  'test whose success raises (GEN-1), the left-recursion sentinel dominates recursion and finding it raises '
                  '(GEN-2), DFA state equality compares finality, arc count and arc identity before any `return True` and '
-                 'states are merged only when equal (GEN-3); plus the independent verdict that all shipped grammars are LL(1) '
-                 '(GR-1..4). Faithfulness of NFA/DFA construction as an input/output relation is not decided.',
+                 'states are merged only when equal (GEN-3); the EBNF -> NFA step: on every path of the four combinators of '
+                 'grammar_parser.py (abstractly interpreted: opaque look-ahead with recorded constraints, sub-fragments in five '
+                 'representative wirings, at most three operands) the automaton built accepts exactly the language of the '
+                 'EBNF phrase the path consumed (GEN-5, regular-language equivalence); plus the independent verdict that all '
+                 'shipped grammars are LL(1) (GR-1..4). Faithfulness of the NFA -> DFA subset construction and of the '
+                 'first-set / plan tables as an input/output relation is not decided.',
         'note': _TB,
-        'technique': 'dominator / must-raise path rules on generator.py + independent LL(1) analysis',
+        'technique': 'abstract interpretation of the NFA combinators + regular-language equivalence; dominator / must-raise '
+                     'path rules on generator.py; independent LL(1) analysis',
     },
     'C09': {
         'level': 'Decides prefix purity and splitter totality as a regular-language statement over all strings: only the '
